@@ -7,7 +7,11 @@
 
 using namespace verif; using namespace VATA; using VATA::Util::BinaryRelation;
 
+namespace VATA { extern size_t verifLtsCounterRowSize; }   // guarded hook in src/explicit_lts_sim.cc (-DVATA_VERIF)
+
 namespace c16 {
+
+static const size_t ROWS[3] = {0, 1, 2};   // counter row size: 0 = regular (31), 1 and 2 = tiny rows so that small systems span several rows
 
 struct Edge { int q, a, r; };
 typedef std::vector<std::vector<bool>> Mat;
@@ -65,29 +69,32 @@ static void body(Env& env, const std::string& stage, int n, int L, int K, int ma
     if (c.wantSample() && E.size() >= 3) c.sample(show(n, E, &(*CB)[CB->size() / 2], n));
     auto mk = [&]() { std::unique_ptr<ExplicitLTS> l(new ExplicitLTS(n)); for (auto& e : E) l->addTransition(e.q, e.a, e.r); l->init(); return l; };
     // partition-free entries
-    { Mat all(n, std::vector<bool>(n, true)); Mat S = refSim(n, E, all);
+    for (size_t row : ROWS) { VATA::verifLtsCounterRowSize = row; Mat all(n, std::vector<bool>(n, true)); Mat S = refSim(n, E, all); std::vector<std::string> feats2 = feats; if (row) feats2.push_back("tiny_counter_rows");
       for (int out = 0; out <= n + 1; out++) { c.evals();
         try { auto l = mk(); BinaryRelation res = out == n + 1 ? l->computeSimulation() : l->computeSimulation((size_t)out); int k = out == n + 1 ? n : out;
           bool bad = (int)res.size() != k; Mat G(k, std::vector<bool>(k)); if (!bad) for (int q = 0; q < k; q++) for (int r = 0; r < k; r++) { G[q][r] = res.get(q, r); if (G[q][r] != S[q][r]) bad = true; }
-          if (bad) c.viol("computeSimulation(size)", (int)res.size() != k ? "wrong_result_size" : "relation_differs", feats, show(n, E, nullptr, out) + " expected=" + mat(S, k) + " got=" + ((int)res.size() == k ? mat(G, k) : "size " + std::to_string(res.size())), w);
-        } catch (std::exception& e) { c.viol("computeSimulation(size)", "exception", feats, show(n, E, nullptr, out) + " " + e.what(), w); } } }
+          if (bad) c.viol("computeSimulation(size)", (int)res.size() != k ? "wrong_result_size" : "relation_differs", feats2, show(n, E, nullptr, out) + " rowSize=" + std::to_string(row) + " expected=" + mat(S, k) + " got=" + ((int)res.size() == k ? mat(G, k) : "size " + std::to_string(res.size())), w);
+        } catch (std::exception& e) { c.viol("computeSimulation(size)", "exception", feats2, show(n, E, nullptr, out) + " " + e.what(), w); } } }
+    VATA::verifLtsCounterRowSize = 0;
     for (auto& cb : *CB) {
       Mat R0(n, std::vector<bool>(n)); for (int q = 0; q < n; q++) for (int r = 0; r < n; r++) R0[q][r] = cb.rel[cb.part[q]][cb.part[r]];
       Mat S = refSim(n, E, R0);
       bool nontriv = false; for (int q = 0; q < n; q++) for (int r = 0; r < n; r++) if (q != r && (S[q][r] || (R0[q][r] && !S[q][r]))) nontriv = true;
       std::vector<std::vector<size_t>> part(cb.m); for (int s = 0; s < n; s++) part[cb.part[s]].push_back(s);
       BinaryRelation rel(cb.m); for (int i = 0; i < cb.m; i++) for (int j = 0; j < cb.m; j++) rel.set(i, j, cb.rel[i][j]);
-      for (int out = 1; out <= n; out++) {
+      for (int out = 1; out <= n; out++) for (size_t row : ROWS) {
+        VATA::verifLtsCounterRowSize = row; std::vector<std::string> feats2 = feats; if (row) feats2.push_back("tiny_counter_rows");
         c.evals(); if (nontriv && E.size() >= 1) c.nontrivial();
         bool pruned = false; for (int q = 0; q < out; q++) for (int r = 0; r < out; r++) if (R0[q][r] && !S[q][r]) pruned = true; c.count(pruned ? "relation_pruned" : "relation_kept");
         try { auto l = mk(); BinaryRelation res = l->computeSimulation(part, rel, (size_t)out);
           bool bad = (int)res.size() != out; Mat G(out, std::vector<bool>(out)); if (!bad) for (int q = 0; q < out; q++) for (int r = 0; r < out; r++) { G[q][r] = res.get(q, r); if (G[q][r] != S[q][r]) bad = true; }
           if (bad) { bool big = false, small = false; if ((int)res.size() == out) for (int q = 0; q < out; q++) for (int r = 0; r < out; r++) { if (G[q][r] && !S[q][r]) big = true; if (!G[q][r] && S[q][r]) small = true; }
-            c.viol("computeSimulation(partition,relation,size)", (int)res.size() != out ? "wrong_result_size" : big && small ? "relation_differs_both_ways" : big ? "relation_too_big" : "relation_too_small", feats,
-                   show(n, E, &cb, out) + " expected=" + mat(S, out) + " got=" + ((int)res.size() == out ? mat(G, out) : "size " + std::to_string(res.size())), w); }
-        } catch (std::exception& e) { c.viol("computeSimulation(partition,relation,size)", "exception", feats, show(n, E, &cb, out) + " " + e.what(), w); }
+            c.viol("computeSimulation(partition,relation,size)", (int)res.size() != out ? "wrong_result_size" : big && small ? "relation_differs_both_ways" : big ? "relation_too_big" : "relation_too_small", feats2,
+                   show(n, E, &cb, out) + " rowSize=" + std::to_string(row) + " expected=" + mat(S, out) + " got=" + ((int)res.size() == out ? mat(G, out) : "size " + std::to_string(res.size())), w); }
+        } catch (std::exception& e) { c.viol("computeSimulation(partition,relation,size)", "exception", feats2, show(n, E, &cb, out) + " " + e.what(), w); }
       }
     }
+    VATA::verifLtsCounterRowSize = 0;
   };
   env.parallel(o);
 }
